@@ -1041,7 +1041,7 @@ func c06SharedInputs(r *rand.Rand) [][]byte {
 // returned (the library must not hold its tree lock while it waits for the caller's reader);
 // (2) after a detector registered through Extend panicked and the caller recovered, Extend and
 // Detect still return (a lock taken for the walk is released on every path).
-// The 10 s waits are liveness guards of the harness: correct code needs microseconds.
+// The 30 s waits are liveness guards of the harness: correct code needs microseconds.
 func c06Liveness(c *fw.Ctx) (stuck bool) {
 	// (1)
 	extDone := make(chan struct{})
@@ -1061,12 +1061,12 @@ func c06Liveness(c *fw.Ctx) (stuck bool) {
 	c.Count("liveness_scenarios", 1)
 	select {
 	case <-resCh:
-	case <-time.After(10 * time.Second):
-		c.Violate("calls-block-each-other", "DetectReader waits for its reader while Extend waits for DetectReader", "Extend did not return within 10 s while a DetectReader call was waiting for data from its reader (the reader delivers only after that Extend has returned): the tree lock is held across the caller's Read", c06Payload{What: "liveness"})
+	case <-time.After(30 * time.Second):
+		c.Violate("calls-block-each-other", "DetectReader waits for its reader while Extend waits for DetectReader", "Extend did not return within 30 s while a DetectReader call was waiting for data from its reader (the reader delivers only after that Extend has returned): the tree lock is held across the caller's Read", c06Payload{What: "liveness"})
 		rd.force()
 		select {
 		case <-resCh:
-		case <-time.After(10 * time.Second):
+		case <-time.After(30 * time.Second):
 			return true
 		}
 	}
@@ -1091,8 +1091,8 @@ func c06Liveness(c *fw.Ctx) (stuck bool) {
 	c.Count("liveness_scenarios", 1)
 	select {
 	case <-done:
-	case <-time.After(10 * time.Second):
-		c.Violate("calls-block-each-other", "Extend after a recovered detector panic", "after a detector registered with Extend panicked inside Detect / DetectReader and the caller recovered, a later Extend + Detect + Lookup did not return within 10 s (a lock taken for the tree walk was not released)", c06Payload{What: "liveness"})
+	case <-time.After(30 * time.Second):
+		c.Violate("calls-block-each-other", "Extend after a recovered detector panic", "after a detector registered with Extend panicked inside Detect / DetectReader and the caller recovered, a later Extend + Detect + Lookup did not return within 30 s (a lock taken for the tree walk was not released)", c06Payload{What: "liveness"})
 		return true // every further call into the library would block as well
 	}
 	mimetype.VerifResetTree()
